@@ -38,6 +38,7 @@ use verif_harness::{join, parse_args, replay_cases, rng::Rng, Recorder};
 const DUP_SIG: &str = "prometheus:duplicate-help-type-lines";
 const ESC_SIG: &str = "prometheus:label-value-not-escaped";
 const VOID_SIG: &str = "mqtt-out:lost-while-connecting";
+const LOST_SIG: &str = "unitmetrics:mqtt:connection_lost_count:failed-reconnect-counted-as-loss";
 
 const UNIT_NAMES: &[&str] = &["mqtt-out", "m\"q", "b\\s", "n\nl", "x\",evil=\"1", "filter", "a-unit", "z-unit"];
 const TEMPLATES: &[&str] = &["rotonda/{id}", "a/{id}/b", "fixed", "q\"{id}\\", "nl\n{id}", "x\",evil=\"{id}", "}{ {id}\\n"];
@@ -398,8 +399,9 @@ fn oracle_q(case: &QCase, obs: &Result<Vec<QObs>, String>) -> String {
     let unit = UNIT_NAMES[case.unit % UNIT_NAMES.len()];
     let mut known: Option<String> = None;
     let mut handed: BTreeMap<u32, String> = BTreeMap::new();
-    let (mut errs, mut lost, mut perr) = (0u64, 0u64, 0u64);
+    let (mut errs, mut lost, mut perr, mut after_ack) = (0u64, 0u64, 0u64, 0u64);
     let mut up = false;
+    let mut lost_known: Option<String> = None;
     let mut acks_ok: BTreeMap<usize, u64> = BTreeMap::new(); // connection -> successful ConnAcks
     let mut lib: BTreeMap<usize, u64> = BTreeMap::new(); // connection -> in-flight figure of the library
     let mut sample = 0u64; // the library's figure when `poll` last returned
@@ -421,7 +423,9 @@ fn oracle_q(case: &QCase, obs: &Result<Vec<QObs>, String>) -> String {
                         BrokerEvent::Other => { *l = l.saturating_sub(1); }
                         BrokerEvent::Refuse | BrokerEvent::Drop => {
                             *l = 0; errs += 1;
-                            if acks_ok.get(conn).copied().unwrap_or(0) > 0 { lost += 1; up = false; }
+                            if up { lost += 1; } // an established connection was lost
+                            if acks_ok.get(conn).copied().unwrap_or(0) > 0 { after_ack += 1; } // what the code counts: any error of an event loop that was connected once
+                            up = false;
                         }
                     }
                     sample = *l;
@@ -456,7 +460,10 @@ fn oracle_q(case: &QCase, obs: &Result<Vec<QObs>, String>) -> String {
         if o.finished { prev = Some(f); continue; } // after Terminate the run loop is gone; the disconnect it made is in the ledger, nothing else is judged
         if (f.up == 1) != up { return format!("fail unitmetrics:mqtt:connection_established:disagrees-with-broker step {k}: exported {}, the last of ConnAck / connection error / disconnect says {}", f.up, up as u8); }
         if f.err != errs { return format!("fail unitmetrics:mqtt:connection_error_count:miscount step {k}: exported {}, the event loops saw {errs} connection errors / refusals", f.err); }
-        if f.lost != lost { return format!("fail unitmetrics:mqtt:connection_lost_count:miscount step {k}: exported {}, {lost} established connections were lost", f.lost); }
+        if f.lost != lost {
+            if f.lost == after_ack && f.lost > lost { lost_known.get_or_insert(format!("fail {LOST_SIG} step {k}: mqtt_target_connection_lost_count is {}, an established connection was lost {lost} time(s); the other {} are failed attempts to re-connect while the connection was already down", f.lost, f.lost - lost)); }
+            else { return format!("fail unitmetrics:mqtt:connection_lost_count:miscount step {k}: exported {}, {lost} established connections were lost", f.lost); }
+        }
         if f.perr != perr { return format!("fail unitmetrics:mqtt:publish_error_count:miscount step {k}: exported {}, {perr} publishes failed or timed out", f.perr); }
         if f.infl != sample { return format!("fail unitmetrics:mqtt:in_flight_count:not-the-sampled-figure step {k}: exported {}, the library said {sample} when poll last returned", f.infl); }
         if f.infl > 1000 { return format!("fail unitmetrics:mqtt:in_flight_count:underflow step {k}: {}", f.infl); }
@@ -486,7 +493,7 @@ fn oracle_q(case: &QCase, obs: &Result<Vec<QObs>, String>) -> String {
             if canonical_clock(a) != want { return format!("fail unitmetrics:assemble:mqtt:differs-from-source-text the collection's exposition is not the registered source's text followed by the assemble duration"); }
         }
     }
-    known.unwrap_or_else(|| "ok".into())
+    lost_known.or(known).unwrap_or_else(|| "ok".into())
 }
 
 fn nontrivial_q(obs: &Result<Vec<QObs>, String>) -> bool {
@@ -558,12 +565,13 @@ fn oracle_r(unit: usize, calls: &[String], obs: &Result<Vec<MqttSnap>, String>) 
     let unit = UNIT_NAMES[unit % UNIT_NAMES.len()];
     let mut known = None;
     let (mut up, mut lost, mut err, mut infl, mut perr) = (false, 0u64, 0u64, 0u64, 0u64);
+    let mut lost_while_up = 0u64; // `reconnecting` calls made while the gauge said up (the repaired reporter counts these only)
     let mut topics: Vec<(String, u64)> = vec![];
     let mut prev: Option<MqttFields> = None;
     for (k, (c, s)) in calls.iter().zip(obs).enumerate() {
         match parse_call(c) {
             ReporterCall::Connected => up = true, ReporterCall::Disconnected => up = false, ReporterCall::ConnectionError => err += 1,
-            ReporterCall::Reconnecting => { up = false; lost += 1 } ReporterCall::PublishError => perr += 1, ReporterCall::InflightUpdate(n) => infl = n as u64,
+            ReporterCall::Reconnecting => { if up { lost_while_up += 1 } up = false; lost += 1 } ReporterCall::PublishError => perr += 1, ReporterCall::InflightUpdate(n) => infl = n as u64,
             ReporterCall::PublishOk(t) => match topics.iter_mut().find(|x| x.0 == t) { Some(x) => x.1 += 1, None => topics.push((t, 1)) },
         }
         let (bad, kn) = judge_mqtt_snapshot(s, unit, k);
@@ -572,7 +580,8 @@ fn oracle_r(unit: usize, calls: &[String], obs: &Result<Vec<MqttSnap>, String>) 
         let ls = parse_text(&s.text).unwrap();
         let f = mqtt_fields(&ls, unit).unwrap();
         if let Some(p) = &prev { if let Some(m) = monotone(p, &f, k) { return m; } }
-        for (name, got, want) in [("connection_established", f.up, up as u64), ("connection_lost_count", f.lost, lost), ("connection_error_count", f.err, err), ("in_flight_count", f.infl, infl), ("publish_error_count", f.perr, perr)] {
+        if f.lost != lost && f.lost != lost_while_up { return format!("fail unitmetrics:mqtt:connection_lost_count:miscount call {k}: exported {}, {lost} reconnecting calls, {lost_while_up} of them while up", f.lost); }
+        for (name, got, want) in [("connection_established", f.up, up as u64), ("connection_error_count", f.err, err), ("in_flight_count", f.infl, infl), ("publish_error_count", f.perr, perr)] {
             if got != want { return format!("fail unitmetrics:mqtt:{name}:miscount call {k}: exported {got}, the calls made imply {want}"); }
         }
         if f.topics != topics { return format!("fail unitmetrics:mqtt:publish_count:miscount call {k}: exported {:?}, the calls made imply {topics:?}", f.topics); }
@@ -820,6 +829,7 @@ fn record(rec: &mut Recorder, line: &str) -> (String, bool) {
 const W_VOID: &str = "q|0|0.0.0.0.1.1.1.0|Im0,m1;Ea;Im2";
 const W_RETRY: &str = "q|0|0.0.0.0.1.1.1.0;0.0.0.0.3.1.1.0|I;Ea;Ir1;Ed;T;T;T;Ea";
 const W_CRED: &str = "q|0|0.0.0.0.1.1.1.0;0.0.0.0.1.1.1.2|I;Ea;Ir1;Im0";
+const W_LOST: &str = "q|0|0.0.0.0.1.1.1.0|I;Ea;Ed;T;Ed;T;Ed;T;Ea";
 const WITNESSES: &[&str] = &[
     "q|4|0.0.0.5.1.1.1.0|I;Ea;Im0,m1,m0;Eo;Ed;T;Ea",
     "q|3|0.0.0.4.1.1.2.0;1.0.0.6.1.1.0.0|I;Ea;Im1;Ir1;Ea;Im1,m2;Eo",
@@ -864,7 +874,10 @@ fn main() {
     let v = seen_of(W_CRED);
     let reconnected = v.get(2).map_or(false, |o| o.seen.iter().any(|s| matches!(s, Seen::Disconnect { .. })));
     rec.variant("cred", if reconnected { "repaired" } else { "as-written" });
-    for w in [W_VOID, W_RETRY, W_CRED] { record(&mut rec, w); }
+    let v = seen_of(W_LOST);
+    let lost_exported = v.last().and_then(|o| parse_text(&o.snap.text)).and_then(|ls| mqtt_fields(&ls, UNIT_NAMES[0])).map_or(0, |f| f.lost);
+    rec.variant("lostcount", if lost_exported > 1 { "as-written" } else { "repaired" });
+    for w in [W_VOID, W_RETRY, W_CRED, W_LOST] { record(&mut rec, w); }
     // exposition variants: a label value with a quote reads back / a metric appended twice repeats its header
     let mut esc_ok = true; let mut dup = false;
     for w in WITNESSES {
